@@ -119,6 +119,37 @@ func verifC15_Fanout() {
 	}
 }
 
+// verifC15_FanoutChurn: delivery to every eligible subscriber "regardless of which other clients
+// exist": while the message is fanned out to two QoS1 subscribers an unrelated client leaves
+// the broker (removeClient takes the broker's write lock) - under every interleaving both
+// subscribers get the message and the fan-out returns.
+func verifC15_FanoutChurn() {
+	b := vBroker()
+	ids := []string{"c0", "c1"}
+	var cl [2]*Client
+	for i := range ids {
+		cl[i] = vClient(b, ids[i], 4)
+		b.clients[ids[i]] = cl[i]
+		b.topicMgr.subscribe([]string{[]string{"a/b", "a/+"}[i]}, []byte{1}, ids[i])
+	}
+	x := vClient(b, "x", 4)
+	b.clients["x"] = x
+	if verifBool("the-leaving-client-is-marked-disconnected") {
+		x.statusFlag = Disconnected
+	}
+	done := make(chan struct{})
+	go func() {
+		b.removeClient("x")
+		close(done)
+	}()
+	b.sendMsgToClient(nil, "a/b", []byte{1, 2}, 1)
+	<-done
+	for i := range ids {
+		verifAssert(len(cl[i].writeCh) == 1, "eligible-subscriber-gets-the-message-once")
+	}
+	verifCover("fanned-out-under-churn")
+}
+
 // ---- client PUBLISH path ---------------------------------------------------------
 
 type vHandler struct {
